@@ -112,6 +112,151 @@ def negated_chain(case: dict, failure: dict) -> bool:
     return negated_chain_in(case.get("src", ""))
 
 
+def _instance(failure: dict) -> str:
+    return failure.get("instance") or ""
+
+
+def minmax_empty_candidate_domain(case: dict, failure: dict) -> bool:
+    """F-minmax-empty: the attributed minmax step emitted a chain translation and, in the failing instance,
+    some generated candidate-domain predicate __dom___{min,max}_* has an empty extension"""
+    after = _after(case, failure)
+    prg = _prg(after)
+    doms = {sig for sig in astutil.defined(prg) if re.match(r"^__dom___(min|max)_\d+_\d+", sig[0])}
+    if not doms:
+        return False
+    res = oracle.solve(after, _instance(failure), case.get("consts") or {}, 50)
+    if res.status not in ("ok", "toomany") or not res.models:
+        # unsatisfiable after-program: judge emptiness on the domain rules alone (they are stratified and choice free)
+        rules = "\n".join(str(s) for s in prg if s.ast_type == ASTType.Rule and {h for h, _ in astutil.positive_heads(s)} and all(h[0].startswith("__dom_") for h, _ in astutil.positive_heads(s)))
+        res = oracle.solve(rules, _instance(failure), case.get("consts") or {}, 50)
+        if res.status not in ("ok", "toomany") or not res.models:
+            return False
+    model = res.models[0]
+    for dom in doms:
+        if not any(a.name == dom[0] and len(a.arguments) == dom[1] for a in model.atoms):
+            return True
+    return False
+
+
+def sum_chain_anonymous_group(case: dict, failure: dict) -> bool:
+    """F-sum-anon: the attributed sum_chains step wrote the placeholder constant `none` for an anonymous group argument"""
+    after, before = _after(case, failure), _before(case, failure)
+    pat = re.compile(r"[(,]none[,)]")
+    return bool(pat.search(after)) and not pat.search(before)
+
+
+def duplication_global_in_condition(case: dict, failure: dict) -> bool:
+    """F-dup-global: in the duplication step's input some statement has a conditional literal or aggregate element
+    that uses a variable which is global in that statement (bound by a plain body literal)"""
+    for stm in _prg(_before(case, failure)):
+        if stm.ast_type not in (ASTType.Rule, ASTType.Minimize):
+            continue
+        plain_vars: set = set()
+        for lit in stm.body:
+            if lit.ast_type == ASTType.Literal and lit.atom.ast_type in (ASTType.SymbolicAtom, ASTType.Comparison):
+                plain_vars.update(astutil.variables_in(lit))
+        plain_vars.discard("_")
+        for lit in stm.body:
+            inner = None
+            if lit.ast_type == ASTType.ConditionalLiteral:
+                inner = lit
+            elif lit.ast_type == ASTType.Literal and lit.atom.ast_type in (ASTType.BodyAggregate, ASTType.Aggregate):
+                inner = lit.atom
+            if inner is not None and set(astutil.variables_in(inner)) & plain_vars:
+                return True
+    return False
+
+
+def math_drops_recursive_aggregate(case: dict, failure: dict) -> bool:
+    """F-math-recursive: in the math step's input a rule's body aggregate mentions a predicate that depends on the rule's own head"""
+    prg = _prg(_before(case, failure))
+    edges: dict = {}
+    for stm in prg:
+        if stm.ast_type != ASTType.Rule:
+            continue
+        heads = set(astutil.atoms_in(stm.head))
+        body: set = set()
+        for b in stm.body:
+            body.update(astutil.atoms_in(b))
+        for h in heads:
+            edges.setdefault(h, set()).update(body)
+
+    def reaches(src: tuple, dst: set) -> bool:
+        seen: set = set()
+        todo = [src]
+        while todo:
+            x = todo.pop()
+            if x in dst:
+                return True
+            if x in seen:
+                continue
+            seen.add(x)
+            todo.extend(edges.get(x, ()))
+        return False
+
+    for stm in prg:
+        if stm.ast_type != ASTType.Rule:
+            continue
+        heads = set(astutil.atoms_in(stm.head))
+        for lit in stm.body:
+            if lit.ast_type == ASTType.Literal and lit.atom.ast_type in (ASTType.BodyAggregate, ASTType.Aggregate):
+                for q in set(astutil.atoms_in(lit)):
+                    if q in heads or reaches(q, heads):
+                        return True
+    return False
+
+
+def math_nonlinear_literal_changed(case: dict, failure: dict) -> bool:
+    """F-math-rationals: a body literal that the math step removed or rewrote contains multiplication, division, modulo,
+    power or absolute value of a variable (relations that are not always solvable over the integers)"""
+    def lits(text: str) -> set:
+        out = set()
+        for stm in _prg(text):
+            if stm.ast_type in (ASTType.Rule, ASTType.Minimize):
+                out.update(str(b) for b in stm.body)
+        return out
+
+    before, after = lits(_before(case, failure)), lits(_after(case, failure))
+    for gone in before - after:
+        prg = _prg(f":- {gone}.")
+        for stm in prg:
+            for n in astutil.walk(stm):
+                if n.ast_type == ASTType.BinaryOperation and int(n.operator_type) not in (3, 4) and astutil.variables_in(n):
+                    return True  # anything but + and -
+                if n.ast_type == ASTType.UnaryOperation and int(n.operator_type) == 2 and astutil.variables_in(n):
+                    return True  # |X|
+    return False
+
+
+def out_only_aux_collision(case: dict, failure: dict) -> bool:
+    """F-outdecl (semantic face): OUT declares a predicate that does not occur in the source and the result defines exactly that predicate"""
+    if case.get("OUT") in (None, "auto"):
+        return False
+    voc = astutil.vocabulary(_prg(case.get("src", "")))
+    declared = {tuple(x) for x in case["OUT"]} - voc
+    if not declared:
+        return False
+    res_text = failure.get("result_text") or _after(case, failure)
+    for att in (failure.get("attribution") or {}).get("after", ""), res_text:
+        if declared & astutil.defined(_prg(att)):
+            return True
+    return False
+
+
+def input_also_defined_domain(case: dict, failure: dict) -> bool:
+    """F-dom-input: a predicate that is declared as input AND defined by rules got a generated domain predicate __dom_<p>
+    (instance facts of p are then missing from the domain)"""
+    if case.get("IN") in (None, "auto"):
+        return False
+    after = (failure.get("attribution") or {}).get("after") or ""
+    prg_after = _prg(after)
+    src_def = astutil.defined(_prg(case.get("src", "")))
+    for name, arity in {tuple(x) for x in case["IN"]} & src_def:
+        if (f"__dom_{name}", arity) in astutil.defined(prg_after):
+            return True
+    return False
+
+
 def classical_negation(case: dict, failure: dict) -> bool:
     """F-classical: the source contains a classically negated atom `-p(..)`"""
     for stm in _prg(case.get("src", "")):
@@ -137,15 +282,24 @@ def aux_collides_with_out_only_declaration(case: dict, failure: dict) -> bool:
 TRIGGERS: dict[str, Callable[[dict, dict], bool]] = {
     "aux_collides_with_out_only_declaration": aux_collides_with_out_only_declaration,
     "classical_negation": classical_negation,
+    "minmax_empty_candidate_domain": minmax_empty_candidate_domain,
+    "sum_chain_anonymous_group": sum_chain_anonymous_group,
+    "duplication_global_in_condition": duplication_global_in_condition,
+    "math_drops_recursive_aggregate": math_drops_recursive_aggregate,
+    "math_nonlinear_literal_changed": math_nonlinear_literal_changed,
+    "out_only_aux_collision": out_only_aux_collision,
+    "input_also_defined_domain": input_also_defined_domain,
     "selfref_equality": selfref_equality,
     "negated_chain": negated_chain,
 }
 
 
 def matches(matcher: dict, case: dict, failure: dict) -> bool:
-    """does the failure fall under the matcher"""
+    """does the failure fall under the matcher (a dict, or {"any": [dict, ...]})"""
     if not matcher:
         return False
+    if "any" in matcher:
+        return any(matches(m, case, failure) for m in matcher["any"])
     if "bucket" in matcher and failure.get("bucket") != matcher["bucket"]:
         return False
     att = failure.get("attribution") or {}
